@@ -212,7 +212,8 @@ class C10(Prop):
             # (a file removed before its first tick would never be delivered: only files already seen by a tick are removed,
             # except those of the very first tick, which may go before they were ever listed - the model's listings say so)
             return {'kind': 'files', 'pre': pre, 'between': between, 'ticks': ticks, 'removes': removes,
-                    'process_all': rng.random() < .3, 'spell': rng.choice(['glob', 'glob', 'dir', 'dir/', 'file://dir'])}
+                    'process_all': rng.random() < .3, 'spell': rng.choice(['glob', 'glob', 'dir', 'dir/', 'file://dir']),
+                    'latedir': rng.random() < .3}
         sources, nodes = gen_network(rng, self.focus)
         longest = max([len(s['queue']) for s in sources] + [1])
         return {'sources': sources, 'nodes': nodes, 'ticks': rng.randint(1, longest + 3),
@@ -243,6 +244,8 @@ class C10(Prop):
         files += [{'kind': 'files', 'pre': ['a.txt'], 'between': ['b.txt'], 'ticks': [['c.txt'], ['d.txt'], ['e.txt'], []],
                    'removes': [[], ['b.txt'], ['c.txt'], []], 'process_all': pa} for pa in (False, True)]
         files += [dict(f, spell=sp) for f in files[:2] for sp in ('dir', 'dir/', 'file://dir')]
+        files += [{'kind': 'files', 'pre': [], 'between': ['b.txt'], 'ticks': [[], ['c.txt', 'd.txt'], []], 'process_all': pa, 'spell': sp,
+                   'latedir': True} for pa in (False, True) for sp in ('dir', 'file://dir')]
         rddq = [dict(diamond, sources=[{'queue': [[1, 2], [], [3]], 'oneAtATime': o, 'default': dflt, 'asRdd': True}])
                 for o in (True, False) for dflt in (None, [7])]
         return [diamond, win, st, st_ext, allq] + rddq + cbw + (files if self.focus == 'C10' else [])
@@ -283,7 +286,9 @@ class C10(Prop):
         ps = self.ps
         self.nfiles = getattr(self, 'nfiles', 0) + 1
         d = os.path.join(ctx.scratch, 'fs%d' % self.nfiles)
-        os.makedirs(d)
+        late = bool(case.get('latedir')) and not case['pre'] and case.get('spell', 'glob') != 'glob'
+        if not late:
+            os.makedirs(d)
 
         def create(names):
             for n in names:
@@ -302,6 +307,9 @@ class C10(Prop):
                 a, b = [], []
                 stream.foreachRDD(self._capture(a))
                 stream.map(lambda x: x).foreachRDD(self._capture(b))      # a second derived stream shares the source
+                if late:
+                    ctx.note('directory-created-after-the-stream')
+                    os.makedirs(d)                 # the monitored directory itself appears after the stream was defined
                 create(case['between'])            # files appearing after creation, before the first interval
                 ssc.start()
                 for t, names in enumerate(case['ticks']):
